@@ -22,6 +22,9 @@ ENC = [
     "grouped_list.is_equal",
 ]
 REFUSED = (AssertionError, ValueError, KeyError, IndexError)
+import numpy as _np
+
+NANF = _np.nan  # the float missing-value sentinel (one object, as numpy.nan / pandas produce it)
 
 
 # ----------------------------------------------------------------------------- reference model
@@ -63,6 +66,8 @@ def build_state(ctx, shape, kinds, leader_pos, content_rev):
         elif k == "r":
             v = ctx.real(f"v{n}")
             syms.append(v)
+        elif k == "NANF":
+            v = NANF
         else:
             v = k
         vals.append(v)
@@ -142,6 +147,8 @@ def arg(ctx, name, kind):
         return ctx.int(name)
     if kind == "r":
         return ctx.real(name)
+    if kind == "NANF":
+        return NANF
     return kind
 
 
@@ -487,6 +494,11 @@ def obligations(tier):
         ("pop", ["i"]), ("sort", ["i"]), ("sort_by", ["i"]), ("replace_group_leader", ["i", "i"]),
         ("replace_group_leader", ["__NAN__", "i"]), ("lookup", ["i"]), ("lookup", ["__NAN__"]),
     ]
+    ops_nan = [
+        ("group", ["NANF", "i"]), ("group", ["i", "NANF"]), ("group", ["NANF", "NANF"]), ("group_list", ["i", "NANF", "NANF"]), ("group_list", ["NANF", "i", "i"]),
+        ("remove", ["NANF"]), ("remove", ["i"]), ("lookup", ["NANF"]), ("lookup", ["i"]), ("replace_group_leader", ["NANF", "i"]), ("replace_group_leader", ["i", "NANF"]),
+        ("append", ["i"]), ("pop", ["i"]), ("copy", ["i"]), ("update_split", ["i"]), ("sort_by", ["i"]),
+    ]
     for sh in shapes:
         total = sum(sh)
         kind_sets = [["i"] * total]
@@ -497,6 +509,13 @@ def obligations(tier):
             if not quick:
                 kind_sets.append(["r"] * total)
         lps = [tuple(0 for _ in sh), tuple(s - 1 for s in sh)] if any(s > 1 for s in sh) else [tuple(0 for _ in sh)]
+        if total >= 1:
+            # float NaN (numpy.nan) as a member / leader: operations that name it, and operations next to it
+            for lp in lps:
+                for op, ak in ops_nan:
+                    if op == "update_split" and not any(s_ > 1 for s_ in sh):
+                        continue
+                    step_jobs.append(dict(shape=sh, kinds=["i"] * (total - 1) + ["NANF"], leader_pos=lp, content_rev=False, op=op, argkinds=ak))
         for kinds in kind_sets:
             for lp in lps:
                 for crev in ([False, True] if len(sh) > 1 else [False]):
@@ -524,9 +543,9 @@ def obligations(tier):
             name="O13.1 step lemma (any valid pre-state, one operation, unconstrained symbolic arguments)",
             harness=h_step, jobs=step_jobs, encodes=ENC, rebindings=[],
             bounds=f"pre-state shapes: <=3 groups, <={2 if quick else 3} members each, <={4 if quick else 6} values; members symbolic ints "
-                   f"(pairwise distinct), optionally the sentinels '__NAN__' / 'a'; leader first or last in its group; content-dict order equal or reversed; "
+                   f"(pairwise distinct), optionally the sentinels '__NAN__' / 'a' / float NaN (numpy.nan); leader first or last in its group; content-dict order equal or reversed; "
                    f"operation arguments unconstrained symbolic ints (or the sentinel)",
-            outside="more than 6 values; float NaN members (nan != nan); update() with overlapping payloads; invalid appends (value already present)",
+            outside="more than 6 values; sort() of a list holding a float NaN (its place among numbers is unspecified); update() with overlapping payloads; invalid appends (value already present)",
             twin_every=5,
         ),
         Obligation(
@@ -546,6 +565,6 @@ def obligations(tier):
 
 ASSUMPTIONS = [
     "valid operation = the method's own assertions hold, and new keys passed to append/update are not already present (DESIGN C13)",
-    "members are ints, reals or strings; no float NaN members",
+    "members are ints, reals, strings or the float missing-value sentinel numpy.nan (one object)",
     "CPython list/dict semantics: equal-hash keys are compared with == (SNum.__hash__ is constant)",
 ]
